@@ -95,8 +95,9 @@ def consecutive {β : Type} : List β → List (β × β)
 
 /-- `_add_edges_within_module_hierarchy(parents, child)` -/
 def addHierarchy (lim : Option Nat) (g : PGraph Str) (parents : List Str) (child : Str) : PGraph Str :=
-  (consecutive (parents ++ [child])).foldl
-    (fun g pc => createEdge lim (createNode lim g pc.1) pc.1 pc.2 true) g
+  -- after fix 69a50d4: all parent nodes first, then the edges
+  let g := parents.foldl (createNode lim) g
+  (consecutive (parents ++ [child])).foldl (fun g pc => createEdge lim g pc.1 pc.2 true) g
 
 /-- `_add_all_modules_as_nodes` -/
 def addAllModules (lim : Option Nat) (g : PGraph Str) (mods : List Str) : PGraph Str :=
